@@ -80,6 +80,8 @@ MUTANTS = [
      r'call\.reply_invalid_parameter\("parameters"\.into\(\)\)', "Ok(())", None),
     ("socket-file-not-unlinked", "varlink/src/server.rs", r"let _ = fs::remove_file\(path\);", "let _ = path;", {"C15"}),
     ("activated-flag-flipped-in-drop", "varlink/src/server.rs", r"Listener::UNIX\(Some\(ref listener\), false\) => \{", "Listener::UNIX(Some(ref listener), true) => {", {"C15"}),
+    ("nodot-answered-with-method-not-found", "varlink/src/lib.rs",
+     r"call\.reply_interface_not_found\(Some\(method\)\)\?;", "call.reply_method_not_found(method)?;", {"C03"}),
     ("listen-drops-upgrade-tail", "varlink/src/server.rs",
      r"unread = if i\.is_some\(\) \{ rest \} else \{ Vec::new\(\) \};", "let _ = rest;", {"C02", "C01"}),
 ]
